@@ -31,6 +31,11 @@ IsKeyCert(c) == c.ok /\ c.type = CertKey /\ c.len >= 4
 KeyCertSigType(c) == U16(c.payload, 0)
 KeyCertCryptoType(c) == U16(c.payload, 2)
 KeyCertPayload(st, ct) == BE16(st) \o BE16(ct)
+\* what the direct constructor NewCertificateWithType accepts (the documented per-type payload rules)
+CertCtorValid(type, payload) ==
+  /\ type \in 0..5 /\ Len(payload) <= 65535
+  /\ (type \in {CertNull, CertHidden} => Len(payload) = 0)
+  /\ (type = CertSigned => Len(payload) \in {40, 72})
 \* excess key bytes a key certificate must carry for its types (keys longer than their field)
 ExcessFor(st, ct) ==
   (IF SigPubLen(st) > SpkField THEN SigPubLen(st) - SpkField ELSE 0)
